@@ -185,6 +185,19 @@ def step (st : St) (toks : List String) : St × String :=
         | _, _ => (st, "no:exit")
       | _, _ => bad
     | _, _, _ => bad
+  | ["sink", ct, pfx, tep, dz, data] =>
+    match ofHex? pfx, bool? tep, bool? dz, ofHex? data with
+    | some pfx, some tep, some dz, some data =>
+      let own : Option CType := if ct == "-" then none else parseCType ct
+      let r := match onDataSink own true true pfx tep dz data with
+        | .raw => "raw"
+        | .ownPacket => "ownPacket"
+        | .otherCommunity => "otherCommunity"
+        | .droppedNoTunnelEndpoint => "dropped"
+        | .exitSocket => "exitSocket"
+        | .droppedZeroDest => "dropped"
+      (st, r)
+    | _, _, _, _ => bad
   | ["dump", a] =>
     match a.toNat? with
     | some a => match findNode st.net a with
